@@ -4,53 +4,89 @@
 (* write lock.  wpc: "check" (holds RLock, about to test i < len), "wait"      *)
 (* (no lock, blocked on pool[i] or closed), "relock" (woke, wants RLock),      *)
 (* "exit" (released the lock, about to cancel), "gone".                        *)
+(* Callers: a caller slot c runs one Add/Cancel call at a time, the call in    *)
+(* progress is cop[c].  The exhaustive configurations let every slot start any *)
+(* call at any time (Start); trace validation fills cop from the recorded call *)
+(* events (Begin) and the initial pool from the recorded NewPool (InitWith).   *)
 EXTENDS Naturals, Sequences, FiniteSets, TLC
 
-CONSTANTS NInit, MaxAdd
-Ctx == 1..(NInit + MaxAdd)
+CONSTANTS NInit, MaxAdd,        \* exhaustive configurations: initial contexts 1..NInit, at most MaxAdd Add calls (ids NInit+1..)
+          NClients, MaxCancel   \* caller slots; at most MaxCancel Cancel calls
+Clients == 1..NClients
 
 VARIABLES ended,        \* set of contexts that have ended
-          pool,         \* sequence of context ids (0 = nil'd by Cancel is modelled by isNil)
-          isNil, closed, poolDone, wpc, wi, writer,  \* writer: some Add/Cancel holds the write lock (atomic here)
-          added, members, maybe, cancelCalled
-vars == <<ended, pool, isNil, closed, poolDone, wpc, wi, writer, added, members, maybe, cancelCalled>>
+          pool,         \* sequence of context ids (nil'd by Cancel is modelled by isNil)
+          isNil, closed, poolDone, wpc, wi,
+          added, members, maybe, cancelCalled,
+          cpc, cop,     \* caller slot: "idle" | "add" | "cancel" (called, before its critical section); the call in progress
+          nextM, ncancel
+vars == <<ended, pool, isNil, closed, poolDone, wpc, wi, added, members, maybe, cancelCalled, cpc, cop, nextM, ncancel>>
 
-Init == /\ ended \in SUBSET (1..NInit)
-        /\ pool = SelectSeq([i \in 1..NInit |-> i], LAMBDA x : x \notin ended)    \* pool.go:44-50
-        /\ isNil = FALSE /\ closed = FALSE /\ poolDone = FALSE /\ wpc = "check" /\ wi = 1 /\ writer = FALSE
-        /\ added = {} /\ members = 1..NInit /\ maybe = {} /\ cancelCalled = FALSE
+NoOp == [op |-> "none", m |-> 0, ended |-> FALSE]
+ToSet(s) == {s[i] : i \in 1..Len(s)}
+
+(* NewPool(ids...) of which pre have already ended - pool.go:36-50; the caller takes the read lock for the watcher *)
+InitWith(ids, pre) ==
+        /\ ended = pre
+        /\ pool = SelectSeq(ids, LAMBDA x : x \notin pre)
+        /\ isNil = FALSE /\ closed = FALSE /\ poolDone = FALSE /\ wpc = "check" /\ wi = 1
+        /\ added = {} /\ members = ToSet(ids) /\ maybe = {} /\ cancelCalled = FALSE
+        /\ cpc = [c \in Clients |-> "idle"] /\ cop = [c \in Clients |-> NoOp]
+        /\ ncancel = 0
+Init == /\ \E pre \in SUBSET (1..NInit) : InitWith([i \in 1..NInit |-> i], pre)
+        /\ nextM = NInit + 1
 
 Len2 == IF isNil THEN 0 ELSE Len(pool)
 (* watcher - pool.go:53-65 *)
 WCheck == /\ wpc = "check"
           /\ IF wi <= Len2 THEN wpc' = "wait" ELSE wpc' = "exit"     \* RUnlock in both cases
-          /\ UNCHANGED <<ended, pool, isNil, closed, poolDone, wi, writer, added, members, maybe, cancelCalled>>
+          /\ UNCHANGED <<ended, pool, isNil, closed, poolDone, wi, added, members, maybe, cancelCalled, cpc, cop, nextM, ncancel>>
 WWait == /\ wpc = "wait" /\ (closed \/ (wi <= Len(pool) /\ pool[wi] \in ended))
-         /\ wpc' = "relock" /\ UNCHANGED <<ended, pool, isNil, closed, poolDone, wi, writer, added, members, maybe, cancelCalled>>
+         /\ wpc' = "relock" /\ UNCHANGED <<ended, pool, isNil, closed, poolDone, wi, added, members, maybe, cancelCalled, cpc, cop, nextM, ncancel>>
 WRelock == /\ wpc = "relock" /\ wpc' = "check" /\ wi' = wi + 1     \* RLock (no writer holds the lock across steps)
-           /\ UNCHANGED <<ended, pool, isNil, closed, poolDone, writer, added, members, maybe, cancelCalled>>
+           /\ UNCHANGED <<ended, pool, isNil, closed, poolDone, added, members, maybe, cancelCalled, cpc, cop, nextM, ncancel>>
 WExit == /\ wpc = "exit" /\ poolDone' = TRUE /\ wpc' = "gone"      \* deferred cancel()
-         /\ UNCHANGED <<ended, pool, isNil, closed, wi, writer, added, members, maybe, cancelCalled>>
+         /\ UNCHANGED <<ended, pool, isNil, closed, wi, added, members, maybe, cancelCalled, cpc, cop, nextM, ncancel>>
+
+(* ---- callers: the call ---- *)
+Begin(c, o) == /\ cpc[c] = "idle"
+               /\ cop' = [cop EXCEPT ![c] = o] /\ cpc' = [cpc EXCEPT ![c] = o.op]
+               /\ ended' = IF o.op = "add" /\ o.ended THEN ended \cup {o.m} ELSE ended       \* Add of a context that has already ended
+               /\ UNCHANGED <<pool, isNil, closed, poolDone, wpc, wi, added, members, maybe, cancelCalled>>
+Start(c) == \/ /\ nextM <= NInit + MaxAdd
+               /\ \E e \in BOOLEAN : Begin(c, [op |-> "add", m |-> nextM, ended |-> e])
+               /\ nextM' = nextM + 1 /\ UNCHANGED ncancel
+            \/ /\ ncancel < MaxCancel
+               /\ Begin(c, [op |-> "cancel", m |-> 0, ended |-> FALSE])
+               /\ ncancel' = ncancel + 1 /\ UNCHANGED nextM
+Finish(c) == cpc' = [cpc EXCEPT ![c] = "idle"] /\ cop' = [cop EXCEPT ![c] = NoOp]
 
 (* Add - pool.go:72-82 (one critical section; cannot run while the watcher holds the read lock) *)
-Add(c) == /\ c \notin members /\ c \notin added /\ c > NInit /\ wpc # "check"
-          /\ added' = added \cup {c}
-          /\ IF poolDone \/ closed THEN UNCHANGED <<pool, members, maybe>>
-             ELSE /\ pool' = IF isNil THEN <<c>> ELSE Append(pool, c)
-                  \* a member per the statement: added while the pool and some member were live;
-                  \* added after the last member ended but before the pool noticed: tracked or not, both allowed
-                  /\ IF \E m \in members : m \notin ended THEN members' = members \cup {c} /\ UNCHANGED maybe
-                                                            ELSE maybe' = maybe \cup {c} /\ UNCHANGED members
-          /\ isNil' = (isNil /\ (poolDone \/ closed))
-          /\ UNCHANGED <<ended, closed, poolDone, wpc, wi, writer, cancelCalled>>
-End(c) == /\ c \notin ended /\ (c \in members \/ c \in added) /\ ended' = ended \cup {c}
-          /\ UNCHANGED <<pool, isNil, closed, poolDone, wpc, wi, writer, added, members, maybe, cancelCalled>>
-Cancel == /\ wpc # "check" /\ cancelCalled' = TRUE
-          /\ IF ~isNil THEN closed' = TRUE /\ isNil' = TRUE ELSE UNCHANGED <<closed, isNil>>
-          /\ UNCHANGED <<ended, pool, poolDone, wpc, wi, writer, added, members, maybe>>
+AddCS(c) == /\ cpc[c] = "add" /\ wpc # "check"
+            /\ LET m == cop[c].m IN
+               /\ added' = added \cup {m}
+               /\ IF poolDone \/ closed THEN UNCHANGED <<pool, members, maybe>>
+                  ELSE /\ pool' = IF isNil THEN <<m>> ELSE Append(pool, m)
+                       \* a member per the statement: added while the pool and some member were live;
+                       \* added after the last member ended but before the pool noticed: tracked or not, both allowed
+                       /\ IF \E x \in members : x \notin ended THEN members' = members \cup {m} /\ UNCHANGED maybe
+                                                                 ELSE maybe' = maybe \cup {m} /\ UNCHANGED members
+            /\ isNil' = (isNil /\ (poolDone \/ closed))
+            /\ Finish(c)
+            /\ UNCHANGED <<ended, closed, poolDone, wpc, wi, cancelCalled, nextM, ncancel>>
+(* a context ends: a member, an added one, or one whose Add call is in flight *)
+End(m) == /\ m \notin ended /\ ended' = ended \cup {m}
+          /\ UNCHANGED <<pool, isNil, closed, poolDone, wpc, wi, added, members, maybe, cancelCalled, cpc, cop, nextM, ncancel>>
+Known(m) == m \in members \/ m \in added \/ \E c \in Clients : cop[c].op = "add" /\ cop[c].m = m
+(* Cancel - pool.go:85-93 *)
+CancelCS(c) == /\ cpc[c] = "cancel" /\ wpc # "check" /\ cancelCalled' = TRUE
+               /\ IF ~isNil THEN closed' = TRUE /\ isNil' = TRUE ELSE UNCHANGED <<closed, isNil>>
+               /\ Finish(c)
+               /\ UNCHANGED <<ended, pool, poolDone, wpc, wi, added, members, maybe, nextM, ncancel>>
 
-Next == WCheck \/ WWait \/ WRelock \/ WExit \/ Cancel \/ \E c \in Ctx : Add(c) \/ End(c)
-Spec == Init /\ [][Next]_vars /\ WF_vars(WCheck \/ WWait \/ WRelock \/ WExit)
+Watcher == WCheck \/ WWait \/ WRelock \/ WExit
+Next == Watcher \/ (\E c \in Clients : Start(c) \/ AddCS(c) \/ CancelCS(c)) \/ \E m \in 1..(NInit + MaxAdd) : Known(m) /\ End(m)
+Spec == Init /\ [][Next]_vars /\ WF_vars(Watcher) /\ WF_vars(\E c \in Clients : AddCS(c) \/ CancelCS(c))
 
 (* never cancelled while a member has not ended, unless Cancel was called *)
 NeverEarly == poolDone => (cancelCalled \/ \A m \in members : m \in ended)
